@@ -59,6 +59,7 @@ def same_object(a, b) -> bool:
     return type(a) is type(b) and (a == b or (a != a and b != b))
 
 
+_CALLS = [0]
 _COMPILED: Dict[Any, Any] = {}
 _KEEP: List[Any] = []      # keeps environments alive so that id(env) stays unique
 
@@ -102,6 +103,20 @@ def rec_find(jp, q: str, doc, env=None, extra: Optional[Dict[str, Any]] = None,
         _COMPILED[key] = compiled
         _KEEP.append(env)
     rec["stage"] = "find"
+    deterministic = not getattr(getattr(compiled, "env", None), "nondeterministic", False)
+    _CALLS[0] += 1
+    if _CALLS[0] % 3 == 0:
+        # an earlier evaluation of this compiled query that was NOT run to its end (abandoned after the
+        # first item, or find_one) must leave nothing behind for the evaluation recorded below
+        try:
+            if _CALLS[0] % 2:
+                compiled.find_one(doc)
+            else:
+                it = iter(compiled.finditer(doc))
+                next(it, None)
+                del it
+        except Exception:  # noqa: BLE001, S110
+            pass
     try:
         nodes = compiled.find(doc)
         rec["out"] = "ok"
@@ -114,6 +129,18 @@ def rec_find(jp, q: str, doc, env=None, extra: Optional[Dict[str, Any]] = None,
             if not found or not same_object(obj, n.value):
                 vok = False
         rec["vok"] = vok
+        if deterministic:
+            # the other entry points of the same compiled query agree with find()
+            try:
+                one = compiled.find_one(doc)
+                rec["one_ok"] = (one is None and not nodes) or (
+                    one is not None and bool(nodes) and one.location == nodes[0].location and same_object(one.value, nodes[0].value))
+            except Exception:  # noqa: BLE001
+                rec["one_ok"] = False
+            try:
+                rec["iter_ok"] = [(n.location) for n in compiled.finditer(doc)] == [n.location for n in nodes]
+            except Exception:  # noqa: BLE001
+                rec["iter_ok"] = False
         if paths:
             rec["paths"] = [core.enc_text(n.path()) for n in nodes]
     except Exception as err:  # noqa: BLE001
